@@ -26,6 +26,8 @@ MONITOR  = a clause of the property is false on the implementation's own observa
   c17/index_elements_last_144               stored index elements ≠ retained suffix of the best chain
   c17/reverted_elements_gone/index|contract element of a disconnected block / reverted formation still stored
   c17/contract_element_present              a contract confirmed on the best chain has no element
+  c17/element_valid_at_returned_basis       a (basis, element) pair returned by V2FileContractElement while batches were
+                                            being committed does not verify against the chain state of its own basis
   c17/host_built_txn_rejected               the host's own lifecycle transaction was refused for a bad proof
   c01/l2_twin                               contract views differ from a twin node that saw only the best chain
   c01/l2_best_chain                         … differ from the confirmations/resolutions on the best chain (harness-derived diffs)
@@ -203,6 +205,7 @@ structure DState where
   hasContracts : Bool := false  -- the host holds contracts in this history
   strictF1 : Bool := false  -- `--strict-formation1`
   f1RefusedBroadcast : Nat := 0  -- v1 formation sets the pool refused and the host broadcast nevertheless
+  pairsRead : Nat := 0      -- (basis, element) pairs read concurrently with syncDB and validated at their own basis
   actLoops : Nat := 0       -- ProcessActions loops (index × kind) checked against `actsOf`
   twinCmp : Nat := 0        -- contracts compared with the twin node
   bestChainCmp : Nat := 0   -- contract views compared with the fold over the best chain
@@ -378,7 +381,7 @@ def step (d : DState) (l : Line) : DState × List Verdict :=
        freshCmp := d.freshCmp, annSet := d.annSet, annCleared := d.annCleared, accOk := d.accOk,
        maxHeight := d.maxHeight, spentAtMat := d.spentAtMat, bucketRegress := d.bucketRegress,
        candParent := d.candParent, candOwn := d.candOwn, candAsFound := d.candAsFound, candRepaired := d.candRepaired,
-       actLoops := d.actLoops, strictF1 := d.strictF1, f1RefusedBroadcast := d.f1RefusedBroadcast, twinCmp := d.twinCmp, bestChainCmp := d.bestChainCmp, dataEnded := d.dataEnded, dataSuccessful := d.dataSuccessful }, [])
+       pairsRead := d.pairsRead, actLoops := d.actLoops, strictF1 := d.strictF1, f1RefusedBroadcast := d.f1RefusedBroadcast, twinCmp := d.twinCmp, bestChainCmp := d.bestChainCmp, dataEnded := d.dataEnded, dataSuccessful := d.dataSuccessful }, [])
   else if d.dead then (d, [])
   else
     match getStr l.obs "res" with
@@ -590,7 +593,12 @@ def step (d : DState) (l : Line) : DState × List Verdict :=
           | _ => .monitor "c17/element_accepted/unknown" a
         let m13 : List Verdict := (if mkidx == 0 then [] else [.monitor "c17/element_proof_valid/index" s!"invalid={mkidx}"]) ++
           (if mkcel == 0 then [] else [.monitor "c17/element_proof_valid/contract" s!"invalid={mkcel}"])
-        let m14 : List Verdict := if hostrej == 0 then [] else [.monitor "c17/host_built_txn_rejected" s!"count={hostrej}"]
+        let m14a : List Verdict := if hostrej == 0 then [] else [.monitor "c17/host_built_txn_rejected" s!"count={hostrej}"]
+        -- pairs (basis, element) a concurrent reader got from V2FileContractElement while the batches were processed
+        let rdr := ((lookup l.obs "rdr").getD "0:0:-").splitOn ":"
+        let rdBad := (rdr.getD 1 "0").toNat?.getD 0
+        let m14 : List Verdict := m14a ++ (if rdBad == 0 then [] else
+          [.monitor "c17/element_valid_at_returned_basis" s!"pairs={rdr.getD 0 "?"},invalid={rdBad},first={rdr.getD 2 "?"}"])
         let annMons := if d.annDead then [] else m6 ++ m7
         let cviews := (getCViews l.obs "cst").getD []
         let bcv := bestChainViolations stack cviews
@@ -640,6 +648,7 @@ def step (d : DState) (l : Line) : DState × List Verdict :=
           bestChainCmp := d1.bestChainCmp + cviews.length,
           hasContracts := d1.hasContracts || !cviews.isEmpty,
           actLoops := d1.actLoops + nAr,
+          pairsRead := d1.pairsRead + ((rdr.getD 0 "0").toNat?.getD 0),
           f1RefusedBroadcast := d1.f1RefusedBroadcast + nF1,
           annSet := d1.annSet + (if annBlocksApplied.isEmpty then 0 else 1),
           annCleared := d1.annCleared + (if d.prevAidx.isSome && aidx.isNone then 1 else 0),
@@ -652,6 +661,6 @@ def step (d : DState) (l : Line) : DState × List Verdict :=
       | _, _, _, _, _, _, _, _, _, _, _, _, _, _, _, _ => ({ d1 with dead := true }, [.badline "observation fields"])
 
 def stats (d : DState) : String :=
-  s!"hists={d.hists} applies={d.applies} reverts={d.reverts} reorg_lines={d.reorgLines} deepest_reorg={d.deepest} max_height={d.maxHeight} fresh_compared={d.freshCmp} ann_set={d.annSet} ann_cleared={d.annCleared} pool_accepts={d.accOk} spend_at_maturity={d.spentAtMat} bucket_regress={d.bucketRegress} expl_ann_parent={d.candParent} expl_ann_own={d.candOwn} expl_metrics_as_found={d.candAsFound} expl_metrics_repaired={d.candRepaired} act_loops={d.actLoops} formation1_refused_but_broadcast={d.f1RefusedBroadcast} twin_contracts={d.twinCmp} best_chain_views={d.bestChainCmp} data_contracts_ended={d.dataEnded} data_contracts_successful={d.dataSuccessful}"
+  s!"hists={d.hists} applies={d.applies} reverts={d.reverts} reorg_lines={d.reorgLines} deepest_reorg={d.deepest} max_height={d.maxHeight} fresh_compared={d.freshCmp} ann_set={d.annSet} ann_cleared={d.annCleared} pool_accepts={d.accOk} spend_at_maturity={d.spentAtMat} bucket_regress={d.bucketRegress} expl_ann_parent={d.candParent} expl_ann_own={d.candOwn} expl_metrics_as_found={d.candAsFound} expl_metrics_repaired={d.candRepaired} concurrent_pairs={d.pairsRead} act_loops={d.actLoops} formation1_refused_but_broadcast={d.f1RefusedBroadcast} twin_contracts={d.twinCmp} best_chain_views={d.bestChainCmp} data_contracts_ended={d.dataEnded} data_contracts_successful={d.dataSuccessful}"
 
 end Hostd.Drive.Wallet
